@@ -153,8 +153,8 @@ func (r *Run) Rand(i int) *rand.Rand {
 	return rand.New(rand.NewPCG(r.Seed^0x9e3779b97f4a7c15, h.Sum64()))
 }
 
-func (r *Run) Eval()              { r.mu.Lock(); r.Res.Evaluations++; r.mu.Unlock() }
-func (r *Run) Class(k string)     { r.mu.Lock(); r.Res.Classes[k]++; r.mu.Unlock() }
+func (r *Run) Eval()                 { r.mu.Lock(); r.Res.Evaluations++; r.mu.Unlock() }
+func (r *Run) Class(k string)        { r.mu.Lock(); r.Res.Classes[k]++; r.mu.Unlock() }
 func (r *Run) Count(k string, n int) { r.mu.Lock(); r.Res.Counters[k] += n; r.mu.Unlock() }
 
 func (r *Run) Sample(s any) {
